@@ -63,13 +63,22 @@ func up(x, unit uint32) uint32 { return (x + unit - 1) / unit * unit }
 // FirstRecord is the offset of the first record for header length h.
 func FirstRecord(h uint32) uint32 { return up(h+4+4*NumHash, Unit) }
 
-// Decode strictly decodes data. Any departure from the documented layout is an error.
-func Decode(data []byte) (*File, error) {
+// Decode strictly decodes data. Any departure from the documented layout, or
+// from the two conventions the library's writers rely on (files are whole
+// pages; no record reaches the last byte of its page), is an error.
+func Decode(data []byte) (*File, error) { return decode(data, true) }
+
+// DecodeDoc decodes by the documented layout alone: records may lie anywhere
+// between the hash table and the limit, and the limit anywhere up to the end
+// of the file. It is the reader a third party would write from the comment.
+func DecodeDoc(data []byte) (*File, error) { return decode(data, false) }
+
+func decode(data []byte, writerConventions bool) (*File, error) {
 	f := &File{Size: len(data), Meta: map[string]string{}, Counts: map[string]uint64{}}
 	if len(data) < PageSize {
 		return nil, fmt.Errorf("file shorter than one page (%d)", len(data))
 	}
-	if len(data)%PageSize != 0 {
+	if writerConventions && len(data)%PageSize != 0 {
 		return nil, fmt.Errorf("file size %d is not a whole number of pages", len(data))
 	}
 	if !bytes.HasPrefix(data, []byte(Prefix)) {
@@ -142,7 +151,7 @@ func Decode(data []byte) (*File, error) {
 			if end > limit {
 				return nil, fmt.Errorf("record %#x: end %#x beyond limit %#x", off, end, limit)
 			}
-			if off/PageSize != end/PageSize {
+			if writerConventions && off/PageSize != end/PageSize {
 				return nil, fmt.Errorf("record %#x-%#x reaches the reserved end of its page", off, end)
 			}
 			name := string(data[off+16 : off+16+nl])
@@ -204,6 +213,18 @@ type Pair struct {
 // each one is preceded by gap*32 unused bytes, and a record is appended at the
 // tail of its bucket chain instead of the head.
 func Encode(meta string, pairs []Pair, gap int) ([]byte, error) {
+	return encode(meta, pairs, gap, false, false)
+}
+
+// EncodeTight writes a file that is well-formed by the documented layout but
+// does not follow the library writers' conventions: records are packed across
+// page boundaries, the last record ends on the last byte of the file, and with
+// trim the file ends at the limit instead of at a page boundary.
+func EncodeTight(meta string, pairs []Pair, gap int, trim bool) ([]byte, error) {
+	return encode(meta, pairs, gap, true, trim)
+}
+
+func encode(meta string, pairs []Pair, gap int, tight, trim bool) ([]byte, error) {
 	if len(meta) > MaxMeta {
 		return nil, fmt.Errorf("metadata too long")
 	}
@@ -214,7 +235,7 @@ func Encode(meta string, pairs []Pair, gap int) ([]byte, error) {
 	limit := uint32(0)
 	tails := map[uint32]uint32{} // bucket -> offset of last record
 	seen := map[string]bool{}
-	for _, p := range pairs {
+	for pi, p := range pairs {
 		if len(p.Name) == 0 || len(p.Name) > MaxName {
 			return nil, fmt.Errorf("bad name length")
 		}
@@ -228,8 +249,13 @@ func Encode(meta string, pairs []Pair, gap int) ([]byte, error) {
 		}
 		start += uint32(gap) * Unit
 		n := up(16+uint32(len(p.Name)), Unit)
-		if start/PageSize != (start+n)/PageSize {
+		if !tight && start/PageSize != (start+n)/PageSize {
 			start = up(start, PageSize)
+		}
+		if tight && !trim && pi == len(pairs)-1 {
+			// the last record ends on the last byte of the file
+			size := up(start+n, PageSize)
+			start = size - n
 		}
 		end := start + n
 		for int(end) > len(data) {
@@ -248,6 +274,9 @@ func Encode(meta string, pairs []Pair, gap int) ([]byte, error) {
 		limit = end
 	}
 	binary.LittleEndian.PutUint32(data[h:], limit)
+	if tight && trim && int(limit) >= PageSize {
+		data = data[:limit]
+	}
 	return data, nil
 }
 
